@@ -2,6 +2,7 @@ package c14
 
 import (
 	"context"
+	"strings"
 	"sync/atomic"
 	"time"
 
@@ -70,6 +71,29 @@ func (r *rig) newConsWire() (*consWire, error) {
 
 func (w *consWire) close() { w.cancel() }
 
+const msgPrePrepare = 1 // core/qbft.MsgPrePrepare
+
+// admits hands one validly signed consensus message of peer 1 (type msgType, round 1, fresh duty of
+// type dutyType, value_hash = hash, values = [anyVal]) to the real receive handler exactly like the
+// libp2p stream handler does (VerifHandle, build tag verif) and returns the handler's error.
+func (w *consWire) admits(dutyType core.DutyType, msgType int64, hash [32]byte, anyVal *anypb.Any) error {
+	duty := core.Duty{Slot: w.r.futureSlot + consSlot.Add(1), Type: dutyType}
+	msg := &pbv1.QBFTMsg{Type: msgType, Duty: core.DutyToProto(duty), PeerIdx: 1, Round: 1, ValueHash: hash[:]}
+	if err := signQBFT(msg, w.r.p2pKeys[1]); err != nil {
+		return err
+	}
+	ctx, cancel := context.WithTimeout(w.r.ctx, 30*time.Second)
+	defer cancel()
+
+	return w.cons.VerifHandle(ctx, w.r.peers[1], &pbv1.QBFTConsensusMsg{Msg: msg, Values: []*anypb.Any{anyVal}})
+}
+
+// refusedEqualValue tells the handler's "the signed value hash is not among the hashes I computed for
+// the attached values" apart from every other refusal.
+func refusedEqualValue(err error) bool {
+	return err != nil && strings.Contains(err.Error(), "value hash not found")
+}
+
 func signQBFT(msg *pbv1.QBFTMsg, key *k1.PrivateKey) error {
 	msg.Signature = nil
 	h, _, err := hashProto(msg)
@@ -105,6 +129,17 @@ func (w *consWire) decideSet(typ core.DutyType, value *pbv1.UnsignedDataSet) (st
 	anyVal, err := anypb.New(value)
 	if err != nil {
 		return "any-failed", nil, true
+	}
+	// Probe (on a duty of its own) whether the real receive handler admits a peer message carrying
+	// exactly this wrapped value: if it refuses a value whose hash is the signed one, the instance below
+	// could only run into the watchdog, and the reason would be lost.
+	if err := w.admits(typ, msgCommit, hash, anyVal); err != nil {
+		w.lastErr = err.Error()
+		if refusedEqualValue(err) {
+			return "refused-equal-value", nil, true
+		}
+
+		return "probe-error", nil, true
 	}
 
 	ctx, cancel := context.WithTimeout(w.r.ctx, 60*time.Second)
